@@ -371,6 +371,77 @@ def big_inputs(r):
     return out
 
 
+def length_patterns(r):
+    """packets whose 16-bit length field has a remarkable byte pattern (low byte ff, odd high byte,
+    high byte only, ...), alone, as compound tiles, and cut short: arithmetic on the two length
+    octets done by hand goes wrong exactly there"""
+    out = []
+    for lf in (0x00fe, 0x00ff, 0x0100, 0x01ff, 0x0200, 0x02ff, 0x03ff, 0x0fff, 0x10ff, 0x3fff, 0x7fff):
+        L = 4 * (lf + 1)
+        body = bytes(r.getrandbits(8) | 1 for _ in range(L - 4))
+        for kind, pt in (("app", 204), ("unknown", 207), ("packet", 204), ("packet", 207)):
+            cnt = r.getrandbits(5)
+            b = bytes([0x80 | cnt, pt]) + struct.pack(">H", lf) + body
+            out.append(P(kind, b))
+        if L <= 20000:
+            t = bytes([0x80, 207]) + struct.pack(">H", lf) + body
+            bye = bytes([0x81, 203, 0, 1, 0, 0, 0, 7])
+            rr = bytes([0x80, 201, 0, 1, 0, 0, 0, 9])
+            for d in (t + bye, rr + t, rr + t + bye, t[:L - 1024] if L > 1028 else t[:L - 4], rr + t[:L - 1024] if L > 1028 else rr + t[:8],
+                      bytes([0x80, 207]) + struct.pack(">H", lf) + bytes(L - 4) + bye):
+                out.append(P("compound", d))
+    return out
+
+
+def sdes_many_chunks(r):
+    """SDES bodies with more than 31 chunks (the 5-bit count cannot say so; the RFC leaves it to the
+    tokenisation), with and without a defect in a late chunk"""
+    out = []
+    def good(i): return struct.pack(">I", 0x01000000 + i) + bytes([1, 1, 0x61 + i % 26, 0])
+    bads = [struct.pack(">I", 5) + bytes([1, 9, 0x61, 0]),                 # item overruns the packet
+            struct.pack(">I", 5) + bytes([8, 2, 9, 0x70]),                 # PRIV prefix overruns its item
+            struct.pack(">I", 5) + bytes([1, 1, 0x61, 0, 0, 1, 0, 0])[:8]]  # stray non-zero octet after the terminator
+    for n in (31, 32, 33, 34, 40, 63, 64, 65):
+        chunks = [good(i) for i in range(n)]
+        fr = sdes_frame(b"".join(chunks))
+        out.append(P("sdes", bytes([0x80 | (n & 31)]) + fr[1:]))
+        for badpos in sorted({n - 1, min(31, n - 1), min(32, n - 1)}):
+            for bad in bads:
+                cs = list(chunks); cs[badpos] = bad
+                body = b"".join(cs)
+                body += bytes((-len(body)) % 4)
+                fr = sdes_frame(body)
+                out.append(P("sdes", bytes([0x80 | (n & 31)]) + fr[1:]))
+    return out
+
+
+def sdes_priv_utf8(r):
+    """PRIV items whose prefix-length octet cuts a multi-byte UTF-8 character of prefix+value in two"""
+    out = []
+    for text in ("aé", "é", "a€b", "€", "abécd", "😀", "x😀y"):
+        t = text.encode("utf-8")
+        for pl in range(0, len(t) + 2):
+            item = bytes([8, 1 + len(t), pl]) + t
+            body = struct.pack(">I", 0x11223344) + item + bytes(1)
+            body += bytes((-len(body)) % 4)
+            out.append(P("sdes", sdes_frame(body)))
+            out.append(P("packet", sdes_frame(body)))
+    return out
+
+
+def report_extensions(r, n=60):
+    """SR / RR with a profile-specific extension (RFC 3550 §6.4.1/2) after the report blocks"""
+    out = []
+    for _ in range(n):
+        k = r.choice(["rr", "sr"])
+        c = wf_cfg_for(k, r); c["padding"] = 0
+        b = gen.encode(c)
+        ext = bytes(r.getrandbits(8) for _ in range(4 * r.choice([1, 2, 6, 7])))
+        q = b[:2] + struct.pack(">H", (len(b) + len(ext)) // 4 - 1) + b[4:] + ext
+        out.append((q, k))
+    return out
+
+
 def custom_kinds():
     return [("custom", pt, mn) for pt in gen.CUSTOM_PTS for mn in gen.CUSTOM_MINS]
 
@@ -561,6 +632,13 @@ def boundary_cfgs(kind, r, tier):
                 {"k": "bye", "padding": 0, "sources": [7], "reason": None}]})
         out.append({"k": "compound", "members": []})
         out.append({"k": "compound", "members": [{"k": "compound", "members": []}]})
+        E = lambda: {"k": "compound", "members": []}
+        PB = lambda p: {"k": "bye", "padding": p, "sources": [1], "reason": None}
+        RR = lambda: {"k": "rr", "ssrc": 2, "padding": 0, "rbs": []}
+        for ms in ([PB(4), E()], [PB(4), E(), E()], [RR(), PB(8), E()], [{"k": "compound", "members": [PB(4), E()]}, RR()],
+                   [E(), PB(4)], [E(), PB(4), RR()], [PB(4), {"k": "compound", "members": [E()]}], [PB(0), E(), RR()],
+                   [{"k": "compound", "members": [RR(), PB(4)]}, E()], [{"k": "compound", "members": [RR(), PB(4)]}, E(), RR()]):
+            out.append({"k": "compound", "members": ms})
         out.append({"k": "compound", "members": [gen.cfg_rr(r) | {"padding": 0, "rbs": []}, {"k": "compound", "members": []}]})
         for pos in range(3):
             ms = [{"k": "rr", "ssrc": i, "padding": 4 if i == pos else 0, "rbs": []} for i in range(3)]
